@@ -89,7 +89,14 @@ def generate(rng, tier, rep):
             mp = rng.sample(['tests', 'pkg', '!sub', 'test_a', '^tests', '!test_b', 'ftests', 'nomatch'], rng.randint(1, 2))
             for p in mp:
                 flags += ['-m', p]
-        c = {'tree': tree, 'roots': roots, 'flags': flags, 'extra_ign': extra, 'usecompiled': usec,
+        spkgs = []
+        if not cli and rng.random() < 0.25:
+            # --package / -s: restrict the walk to the directories of some packages below the search paths
+            cands = sorted(set(tuple(d[len(r[1]):]) for r in roots for d in ds if len(d) > len(r[1]) and list(d[:len(r[1])]) == list(r[1])
+                               and all(x.replace('_', 'a').isalnum() and not x[0].isdigit() for x in d[len(r[1]):])))
+            for rel in rng.sample(cands, min(len(cands), rng.choice([1, 1, 2]))):
+                spkgs.append('.'.join(rel))
+        c = {'tree': tree, 'roots': roots, 'flags': flags, 'extra_ign': extra, 'usecompiled': usec, 'spkgs': spkgs,
              'mode': 'cli' if cli else 'direct', 'order_seed': rng.randint(0, 10 ** 6), 'mpats_given': mp,
              'topname': rng.choice(['c%d' % i, 'tests', 'c%d' % i])}
         if cli:
@@ -99,6 +106,7 @@ def generate(rng, tier, rep):
         cases.append(c)
         rep.count('mode=' + c['mode'])
         rep.count('roots=%d' % k)
+        rep.count('with --package' if c['spkgs'] else 'without --package')
         rep.count('patterns=' + ' '.join(flags[:4]))
     return cases
 
@@ -132,11 +140,24 @@ def to_coq(c, o):
     # options.test_path = --test-path entries followed by the --path entries
     ordered = [r for r in c['roots'] if r[0] == '--test-path'] + [r for r in c['roots'] if r[0] == '--path']
     roots = [[c['topname']] + r[1] for r in ordered]
+    walk = roots
+    if c.get('spkgs'):
+        # test_dirs(): for every package, in option order, its directory under every search path that has it (search-path order),
+        # each directory once
+        dset = set(dirs_of(c['tree']))
+        walk, seen = [], set()
+        for pk in c['spkgs']:
+            rel = pk.split('.')
+            for r in ordered:
+                d = tuple(r[1] + rel)
+                if d in dset and d not in seen:
+                    seen.add(d)
+                    walk.append([c['topname']] + list(d))
     return ('{| top := D %s %s; t_ident := %s; t_tpat := %s; t_fpat := %s; ign := %s; usecompiled := %s; '
             'walk_roots := %s; name_roots := %s; mpats := %s; mtab := %s; r_found := %s; r_imported := %s |}' % (
                 g_str(c['topname']), g_tree(c['tree']), g_tab(o['ident']), g_tab(o['tpat']), g_tab(o['fpat']),
                 g_list([g_str(x) for x in o['ign']]), g_bool(c['usecompiled']),
-                g_list([g_path(r) for r in roots]), g_list([g_path(r) for r in roots]),
+                g_list([g_path(r) for r in walk]), g_list([g_path(r) for r in roots]),
                 g_list([g_str(p) for p in o['mpats']]),
                 g_list(['(%s, %s, %s)' % (g_str(p), g_str(m), g_bool(b)) for p, m, b in o['mtab']]),
                 g_opt(None if o['found'] is None else g_list([g_path(p) for p in o['found']])),
